@@ -2,6 +2,8 @@ package props
 
 import (
 	"fmt"
+	"strings"
+	"sync"
 	"testing"
 
 	lib "github.com/corazawaf/libinjection-go"
@@ -90,6 +92,92 @@ func c07Oracle(c ev.Case) Res {
 }
 
 func htmlCase(in string) ev.Case { return ev.Case{Kind: "diff", In: in} }
+
+// htmlBoundaryInputs: inputs aimed at exact lengths and counts - names stuffed with NUL runs
+// of 1..100 bytes, short comment tokens (4..6 bytes) with the IE/XML/IMPORT/ENTITY markers,
+// case-folding code points inside comments, structural bytes occurring exactly 255/256/257
+// times, lower-case CDATA openers in front of vectors, alias runes after attribute names.
+var (
+	htmlBoundaryOnce sync.Once
+	htmlBoundaryVal  []string
+)
+
+func htmlBoundaryInputs() []string {
+	htmlBoundaryOnce.Do(func() {
+		seen := map[string]bool{}
+		add := func(s string) {
+			if !seen[s] {
+				seen[s] = true
+				htmlBoundaryVal = append(htmlBoundaryVal, s)
+			}
+		}
+		nulRuns := []int{1, 2, 7, 30, 40, 44, 45, 46, 47, 48, 49, 50, 64, 100}
+		for _, n := range nulRuns {
+			z := strings.Repeat("\x00", n)
+			for _, name := range []string{"onerror", "onwebkitcurrentplaybacktargetiswirelesschanged", "href", "style", "xmlns", "by", "attributename", "xlink:href"} {
+				for _, pos := range []int{1, 2, len(name) / 2, len(name) - 1} {
+					nm := name[:pos] + z + name[pos:]
+					add("<img src=x " + nm + "=javascript:alert(1)>")
+					add("<a " + nm + "=onclick>")
+					add("' " + nm + "=javascript:x '")
+				}
+			}
+			for _, tag := range []string{"script", "iframe", "xml", "style", "svt"} {
+				add("<" + tag[:1] + z + tag[1:] + ">")
+				add("<" + tag[:len(tag)-1] + z + tag[len(tag)-1:] + " x>")
+			}
+		}
+		// short and boundary-length comment tokens
+		for _, op := range [][2]string{{"<!--", "-->"}, {"<!", ">"}, {"<?", ">"}, {"<%", "%>"}, {"</ ", ">"}, {"<!--", ""}, {"<?", ""}} {
+			for _, body := range []string{"xml", "xml ", "xmlx", "xml x", "XML ", "xMl ", "[if]", "[if ]", "[IF]", "[iF]x", "[if", "[i", "import", "IMPORT", "impor", "import x", "i\x00mport", "entity", "ENTITY x", "entit", "`", "a`", "abc`",
+				"\xc4\xb1abcd", "\xc5\xbfcrip", "\xc4\xb1\xc5\xbf", "\xc4\xb1mport", "[\xc4\xb1f]", "ent\xc4\xb1ty", "x\xc4\xb1", "abc\xc5\xbf", "\xe1\xbe\xbea", "\xc4\xb1\xc4\xb1\xc4\xb1"} {
+				add(op[0] + body + op[1])
+				add("x" + op[0] + body + op[1] + "y")
+			}
+		}
+		// structural bytes occurring exactly 255 / 256 / 257 / 512 times around a vector seen by one pass only
+		for _, v := range []string{"<script>alert(1)</script>", "\" onerror=alert(1) x=\"", "' onerror=alert(1) x='", "` onerror=alert(1) x=`", "x onerror=alert(1)", "<a href=javascript:x>", "hello"} {
+			for _, unit := range []string{"<b>", "<", "=", " a=b", "'", "\"", "`", "' ", "\" ", "</b>", ">"} {
+				for _, total := range []int{255, 256, 257, 512} {
+					b := unit[len(unit)-1]
+					if unit == " a=b" {
+						b = '='
+					}
+					if unit == "<b>" || unit == "</b>" {
+						b = '<'
+					}
+					cnt := strings.Count(v, string(b))
+					if k := total - cnt; k > 0 {
+						add(v + strings.Repeat(unit, k))
+						add(strings.Repeat(unit, k) + v)
+					}
+				}
+			}
+		}
+		// total lengths at 8- and 16-bit boundaries
+		for _, n := range []int{255, 256, 257, 65535, 65536, 65537} {
+			for _, v := range []string{"<script>", "' onerror=1 '", "<a href=javascript:x>"} {
+				add(strings.Repeat("a", n-len(v)) + v)
+				add(v + strings.Repeat("a", n-len(v)))
+			}
+		}
+		// CDATA opener case variants in front of vectors
+		for _, cd := range []string{"<![cdata[", "<![CData[", "<![cDATA[", "<![CDATA["} {
+			for _, v := range []string{"<script>alert(1)</script>", " a='><script>alert(1)</script>'", ">x<iframe>", "]]><script>"} {
+				add(cd + v)
+				add(cd + v + "]]>")
+				add(cd + ">" + v + "]]>")
+			}
+		}
+		// alias runes (low byte = a structural ASCII byte) after attribute names and inside tags
+		for _, r := range gen.RuneAliases {
+			for _, t := range []string{"onclick " + r + "x", "onclick" + r + "alert(1)", "x` href " + r + "javascript:void(0)", "<a href" + r + "javascript:x>", r + "script>", "<a " + r + "onclick" + r + "1>", "style " + r + " x"} {
+				add(t)
+			}
+		}
+	})
+	return htmlBoundaryVal
+}
 
 var htmlAtoms = []string{"<", ">", "/", "=", "'", "\"", "`", "!", "-", "?", "%", "[", "]", "&#", ";", "x", "a", "\x00", " ", "\n",
 	"<!--", "-->", "<![CDATA[", "]]>", "<%", "%>", "<!doctype", "<script", "<a ", "href", "onclick", "style", "javascript:", "xmlns", "attributename", "[if", "xml", "import", "entity", "<svt", "by", "&#x6a;"}
@@ -205,6 +293,10 @@ func TestC07(t *testing.T) {
 	tr := htmlTruncationInputs()
 	p = c.rec.NewPart("truncations", "every prefix of every markup construct behind 11 contexts, every prefix of every corpus input", false, true, "")
 	c.ParRange(p, int64(len(tr)), func(w *Worker, i int64) { judge(w, tr[i]) })
+
+	hb := htmlBoundaryInputs()
+	p = c.rec.NewPart("boundary_inputs", "NUL runs of 1..100 bytes inside names; 4..6-byte comment tokens with IE/XML/IMPORT/ENTITY markers and case-folding code points; structural bytes exactly 255/256/257/512 times; total lengths 255..257 and 65535..65537; CDATA opener case variants; alias runes after names", false, true, "")
+	c.ParRange(p, int64(len(hb)), func(w *Worker, i int64) { judge(w, hb[i]) })
 
 	// decoder: exhaustive over its alphabet
 	Ld := pick(6, 7)
